@@ -1,0 +1,5 @@
+// Package verifhook provides named observation/steering points for the external
+// verification harness. Without the build tag `verif` every function in this package
+// is an empty, inlinable no-op; with the tag, calls are dispatched to a handler that
+// the harness installs (scheduler, fault injector, event recorder).
+package verifhook
